@@ -378,6 +378,78 @@ fn printed_rows(ctx: &Ctx) -> Report {
     rep
 }
 
+/// Non-interference of the source markers: the one-character marker printed next to a value belongs to that value's
+/// column. Two tables that differ only in the marker field of column C may differ only inside C's span and the one
+/// character after it; every other cell - in particular the markers of the other columns - must print identically.
+/// (The oracle needs no definition of the marker alphabet: values are rotated among the rows of the same table.)
+fn marker_noninterference(ctx: &Ctx) -> Report {
+    let mut rep = Report::new("C14", "marker-non-interference");
+    let mut r = ctx.rng("c14m");
+    let rounds = ctx.share(ctx.n(32, 640));
+    let fields: [(&str, &str); 5] = [("altitude_source", "ALT B"), ("target_altitude_source", "ALT S"), ("vrate_source", "VRATE"), ("track_source", "TRK"), ("heading_source", "HDG")];
+    for round in 0..rounds {
+        let display = ["aAews", "A", "aA", "As", "aAs"][(round % 5) as usize].to_string();
+        let rows = gen_rows(&mut r, 24, true);
+        let mut tables = vec![TableSpec { display: vec![display.clone()], order: vec!["".into()], rows: rows.clone() }];
+        for (f, _) in fields.iter() {
+            let mut v = rows.clone();
+            let n = v.len();
+            for i in 0..n {
+                let src = &rows[(i + 1) % n];
+                match *f {
+                    "altitude_source" => v[i].altitude_source = src.altitude_source,
+                    "target_altitude_source" => v[i].target_altitude_source = src.target_altitude_source,
+                    "vrate_source" => v[i].vrate_source = src.vrate_source,
+                    "track_source" => v[i].track_source = src.track_source,
+                    _ => v[i].heading_source = src.heading_source,
+                }
+            }
+            tables.push(TableSpec { display: vec![display.clone()], order: vec!["".into()], rows: v });
+        }
+        let texts = match render(&tables) {
+            Ok(t) => t,
+            Err(e) => {
+                rep.inconclusive(e);
+                continue;
+            }
+        };
+        let Ok(base) = parse_table(&texts[0]) else {
+            rep.inconclusive("base table does not parse".into());
+            continue;
+        };
+        for (k, (f, col)) in fields.iter().enumerate() {
+            let Ok(var) = parse_table(&texts[k + 1]) else {
+                rep.inconclusive("variant table does not parse".into());
+                continue;
+            };
+            let span = base.cols.iter().find(|(n, _, _)| n == col).map(|(_, s, e)| (*s, *e + 1));
+            for (i, (lb, lv)) in base.rows.iter().zip(var.rows.iter()).enumerate() {
+                let (cb, cv): (Vec<char>, Vec<char>) = (lb.chars().collect(), lv.chars().collect());
+                let changed: Vec<usize> = (0..cb.len().max(cv.len())).filter(|&j| cb.get(j) != cv.get(j)).collect();
+                let differs_in_spec = {
+                    let a = &tables[0].rows[i];
+                    let b = &tables[k + 1].rows[i];
+                    a.to_line() != b.to_line()
+                };
+                let ek = format!("{}|{}|{}", f, display, tables[k + 1].rows[i].to_line());
+                rep.eval(if differs_in_spec { Some(ek.as_bytes()) } else { None });
+                rep.count("row_pairs_compared", 1);
+                let outside: Vec<usize> = changed.iter().copied().filter(|j| span.is_none_or(|(s, e)| *j < s || *j > e)).collect();
+                if !outside.is_empty() {
+                    rep.violation(
+                        &format!("marker-of-{}-leaks", f),
+                        format!("-i {:?} {}", display, f),
+                        format!("changing only {} (column {:?}, span {:?}) changed the printed row at character positions {:?}: {:?} -> {:?}", f, col, span, outside, lb, lv),
+                        vec![format!("note print sub-process, -i {:?}; row spec {}", display, tables[k + 1].rows[i].to_line())],
+                    );
+                    break;
+                }
+            }
+        }
+    }
+    rep
+}
+
 /// C07: wake-class letter for all 32 (TC, CA) pairs on the printed table
 pub fn wake_letters(ctx: &Ctx) -> Option<Report> {
     if ctx.shard != 0 {
@@ -421,7 +493,7 @@ pub fn wake_letters(ctx: &Ctx) -> Option<Report> {
 }
 
 pub fn run(ctx: &Ctx) -> Vec<Report> {
-    let mut out = vec![printed_rows(ctx)];
+    let mut out = vec![printed_rows(ctx), marker_noninterference(ctx)];
     if let Some(r) = super::cli::refresh_blocks(ctx) {
         out.push(r);
     }
